@@ -89,6 +89,37 @@ def allValues : List String → Option (List Value)
     | some v, some r => some (v :: r)
     | _, _ => none
 
+def allKinds : List String → Option (List Kind)
+  | [] => some []
+  | w :: ws => match kind? w, allKinds ws with
+    | some k, some r => some (k :: r)
+    | _, _ => none
+
+/-- size of `TupleHeader` (version byte + padding, xmin, xmax) -/
+def tupleHeaderSize : Nat := 24
+
+/-- `key` op: a search tuple and a stored cell of an index with the given key kinds and one BigUInt value column,
+    laid out as `TupleBuilder` does (header, one bitmap byte, keys, value), compared by `compareKeys`. -/
+def keyOp (D : Defects) (ks : List Kind) (tv cv : List Value) : String :=
+  if ks.length = 0 ∨ tv.length ≠ ks.length ∨ cv.length ≠ ks.length then "bad-op"
+  else if (tv.map Value.kind) ≠ ks ∨ (cv.map Value.kind) ≠ ks then "err build"
+  else
+    let cur := tupleHeaderSize + 1
+    let pre : Bytes := List.replicate cur 0
+    let tbuf := pre ++ layoutKeys cur tv ++ List.replicate 16 0
+    let cbuf := pre ++ layoutKeys cur cv ++ List.replicate 16 0
+    let r1 := compareKeys D ks tbuf cur cbuf cur
+    let show_ (r : Except Err Ordering) : String := match r with
+      | .ok o => ordName o
+      | .error e => s!"err {e.name}"
+    -- `Btree::search`: the bare serialized key from cursor 0 (single key column only)
+    let r2 : Option (Except Err Ordering) := match ks, tv with
+      | [_], [t] => some (compareKeys D ks (layoutKeys 0 [t]) 0 cbuf cur)
+      | _, _ => none
+    match r2 with
+    | some r2 => if show_ r2 = show_ r1 then show_ r1 else s!"MODEDIFF tuple={show_ r1} bare={show_ r2}"
+    | none => show_ r1
+
 def step (D : Defects) (line : String) : String :=
   match words line with
   | ["zz", v] => match i64? v with
@@ -184,6 +215,10 @@ def step (D : Defects) (line : String) : String :=
   | ["hash", v] => match value? v with
     | some v => hexOfBytes (hashKey D v)
     | none => "bad-op"
+  | ["key", ks, tv, cv] =>
+    match allKinds (ks.splitOn ","), allValues (tv.splitOn ","), allValues (cv.splitOn ",") with
+    | some ks, some tv, some cv => keyOp D ks tv cv
+    | _, _, _ => "bad-op"
   | "laws" :: ws => match allValues ws with
     | some vs => if vs.length = 0 ∨ vs.length > 4 then "bad-op" else laws D vs
     | none => "bad-op"
